@@ -122,6 +122,11 @@ pub fn tick_limit(hay: usize, needle: usize) -> u64 {
 #[global_allocator]
 static GLOBAL: alloc_probe::Counting = alloc_probe::Counting;
 
+fn op_timeout_secs() -> u32 {
+    static T: std::sync::OnceLock<u32> = std::sync::OnceLock::new();
+    *T.get_or_init(|| std::env::var("VERIF_OP_TIMEOUT").ok().and_then(|s| s.parse().ok()).unwrap_or(30))
+}
+
 fn main() {
     let args: Vec<String> = std::env::args().collect();
     if args.len() >= 2 && args[1] == "conc-child" {
@@ -131,6 +136,7 @@ fn main() {
     // Read the hook's MEMCHR_VERIF_FORCE setting now (it allocates a String once), so that it
     // is not attributed to the first dispatched call of an op.
     let _ = memchr::verif::forced_unavailable(memchr::verif::Isa::Avx2);
+    let _ = op_timeout_secs();
     vreset();
     // Panics are results, not noise.
     std::panic::set_hook(Box::new(|_| {}));
@@ -146,7 +152,16 @@ fn main() {
         if line.is_empty() {
             continue;
         }
+        // Watchdog: an op that does not answer within VERIF_OP_TIMEOUT (default 30) seconds kills the executor with
+        // SIGALRM (the caller sees a crash at this op, reports it as a hang and restarts the
+        // executor behind it). The slowest op of the unchanged tree takes well under a second.
+        unsafe {
+            libc::alarm(op_timeout_secs());
+        }
         let ans = ops::run_line(line);
+        unsafe {
+            libc::alarm(0);
+        }
         let _ = writeln!(out, "{}", ans);
         // Flush after every answer so that a crash (SIGSEGV on a guard page,
         // abort) leaves all earlier answers visible to the caller.
